@@ -355,6 +355,16 @@ fn cell(rep: &mut Report, role: Role, as_client: bool, lver: LVer, st: Status, p
         rep.violate(fail("C11", "G1-outcome-equals-gating-table", format!("role={:?};client_path={};conn={:?};status={:?};kind={:?};ver={:?};qos={};persistent={};offline={};got={}", role, as_client, lver, st, k, ver, qos, persistent, offline, got), format!("{}: expected {:?}, observed {} {}", name, want, got, evs_short(&evs)), witness.clone()));
         return;
     }
+    if got == "QUEUED" {
+        // "queued" must mean queued: the packet is in the exported store (otherwise the call was neither
+        // passed on, nor refused, nor kept - it vanished)
+        rep.hit("G5-queued-means-stored");
+        let stored = c.stored().unwrap_or_default();
+        if !stored.iter().any(|q| q.id() == Some(id) && q.kind() == k) {
+            rep.violate(fail("C11", "G5-queued-means-stored", format!("kind={:?};ver={:?};status={:?};persistent={};offline={}", k, ver, st, persistent, offline), format!("{}: send returned no error and no send request, but the packet is not in get_stored_packets() either", name), witness.clone()));
+            return;
+        }
+    }
     if got == "REFUSED" {
         // only error events, plus the release of this packet's id
         rep.hit("G3-refused-call-leaves-no-trace");
@@ -529,6 +539,90 @@ pub fn run_c17(ctx: &Ctx) -> Report {
                 let evs = c.recv(&frame).map(|x| x.0).unwrap_or_default();
                 if c.version() != LVer::Undetermined || !evs.iter().any(|e| e.is_error()) || evs.iter().any(|e| matches!(e, Ev::Recv { .. } | Ev::Send { .. })) {
                     rep.violate(fail("C17", "H4-undetermined-rejects-other-first-packet", format!("type={}", ty), format!("Undetermined {:?} server, first packet of type {}: version {:?}, events {}", role, ty, c.version(), evs_short(&evs)), json!({})));
+                }
+            }
+        }
+    }
+    // Undetermined server whose FIRST CONNECT (level 4 or 5) is refused by the codec: the version is adopted all
+    // the same, and from then on it behaves like a server created with that version
+    for role in [Role::Server, Role::Any] {
+        for idw in [2usize, 4] {
+            for ver in [Ver::V311, Ver::V5] {
+                for (mname, mutate) in [
+                    ("client-id-invalid-utf8", 0u8),
+                    ("truncated-after-flags", 1),
+                    ("reserved-flag-set", 2),
+                    ("will-qos-3", 3),
+                    ("well-formed", 4),
+                ] {
+                    let mut frame = rc::encode(&Pkt::Connect { ver, clean: true, keep_alive: 5, client_id: b"ab".to_vec(), will: None, user: None, pass: None, props: vec![] }, idw);
+                    match mutate {
+                        0 => {
+                            let n = frame.len();
+                            frame[n - 2] = 0xC3;
+                            frame[n - 1] = 0x28;
+                        }
+                        1 => {
+                            frame.truncate(2 + 6 + 1 + 1);
+                            frame[1] = (frame.len() - 2) as u8;
+                        }
+                        2 => frame[9] |= 0x01,
+                        3 => frame[9] |= 0x18,
+                        _ => {}
+                    }
+                    let other = if ver == Ver::V5 { Ver::V311 } else { Ver::V5 };
+                    let script: Vec<(String, Option<Vec<u8>>)> = vec![
+                        (format!("first CONNECT {:?} {}", ver, mname), Some(frame.clone())),
+                        ("notify_closed".into(), None),
+                        (format!("CONNECT {:?} well-formed", other), Some(rc::encode(&connect_pkt(other, false), idw))),
+                        ("notify_closed".into(), None),
+                        (format!("CONNECT {:?} well-formed", ver), Some(rc::encode(&connect_pkt(ver, false), idw))),
+                        ("PINGREQ".into(), Some(rc::encode(&Pkt::Pingreq { ver }, idw))),
+                    ];
+                    let run = |lv: LVer| -> (Vec<String>, LVer) {
+                        let mut c = new_conn(role, idw, lv);
+                        let mut out = Vec::new();
+                        let mut after_first = LVer::Undetermined;
+                        for (k, (name, bytes)) in script.iter().enumerate() {
+                            let evs = match bytes {
+                                Some(b) => {
+                                    let mut all = Vec::new();
+                                    let mut off = 0;
+                                    while off < b.len() {
+                                        match c.recv(&b[off..]) {
+                                            Ok((e, n)) if n > 0 || !e.is_empty() => {
+                                                off += n;
+                                                all.extend(e);
+                                            }
+                                            _ => break,
+                                        }
+                                    }
+                                    all
+                                }
+                                None => c.notify_closed().unwrap_or_default(),
+                            };
+                            if k == 0 {
+                                after_first = c.version();
+                            }
+                            out.push(format!("{} => {}", name, evs_short(&normalise(&evs))));
+                        }
+                        (out, after_first)
+                    };
+                    let (tu, adopted) = run(LVer::Undetermined);
+                    let (tf, _) = run(LVer::from_ver(ver));
+                    rep.hit("H6-adoption-survives-a-refused-first-connect");
+                    rep.evaluations += 1;
+                    rep.distinct_case(format!("undet-refused {:?} {} {:?} {}", role, idw, ver, mname).as_bytes());
+                    if adopted != LVer::from_ver(ver) || tu != tf {
+                        let k = tu.iter().zip(tf.iter()).position(|(a, b)| a != b).unwrap_or(0);
+                        rep.violate(fail(
+                            "C17",
+                            "H6-adoption-survives-a-refused-first-connect",
+                            format!("first_connect={};adopted={:?}", mname, adopted),
+                            format!("Undetermined {:?} server, first CONNECT of {:?} ({}): version afterwards {:?}; first difference to a {:?} server at step {}: `{}` vs `{}`", role, ver, mname, adopted, ver, k, tu.get(k).cloned().unwrap_or_default(), tf.get(k).cloned().unwrap_or_default()),
+                            json!({"undetermined": tu, "fixed": tf}),
+                        ));
+                    }
                 }
             }
         }
